@@ -14,6 +14,7 @@ n < 0, `//` and `%` raise ZeroDivisionError, …).  Anything the tracer cannot f
 reported as not translatable rather than silently mistranslated.  Each traced tree is in addition validated
 against the real code on concrete points by the caller (see tools/gen/src_*.py: `validate`).
 """
+from common import exc_name  # noqa: E402
 import itertools
 
 
@@ -310,7 +311,7 @@ def outcome(thunk, describe):
     except Untraceable:
         raise
     except Exception as e:      # noqa - the exception class IS the outcome
-        return ('raise', type(e).__name__)
+        return ('raise', exc_name(e))
     return ('ok', describe(r))
 
 
@@ -352,7 +353,7 @@ def run_tree(tree, env, collaborators=None):
             try:
                 env[var] = collaborators[name](ev(arg, env))
             except Exception as e:      # noqa
-                return ('raise', type(e).__name__)
+                return ('raise', exc_name(e))
             tree = sub
     return tree[1] if tree[1][0] == 'raise' else ('ok', ev_val(tree[1][1], env))
 
@@ -529,7 +530,7 @@ class Entry:
         try:
             r = self.call(dict(env))
         except Exception as e:      # noqa
-            return ('raise', type(e).__name__)
+            return ('raise', exc_name(e))
         return ('ok', conc_val(r))
 
     def lean(self):
